@@ -1,11 +1,33 @@
+from typing import Optional
+
 from idpyoidc.client.oauth2 import refresh_access_token
+from idpyoidc.client.oidc.access_token import AccessToken
 from idpyoidc.message import oidc
+from idpyoidc.message.oidc import verified_claim_name
 
 
 class RefreshAccessToken(refresh_access_token.RefreshAccessToken):
     msg_type = oidc.RefreshAccessTokenRequest
     response_cls = oidc.AccessTokenResponse
     error_msg = oidc.ResponseMessage
+
+    # An ID Token in the response is held to what was registered (signing algorithm, clock
+    # skew, missing kid) exactly as one that comes with the first token response.
+    gather_verify_arguments = AccessToken.gather_verify_arguments
+
+    def update_service_context(self, resp, key: Optional[str] = "", **kwargs):
+        _idt = resp.get(verified_claim_name("id_token"))
+        if _idt and "nonce" in _idt:
+            # OpenID Connect Core 12.2: a nonce, if there is one, is the nonce of the
+            # original authentication
+            try:
+                _nonce = self.upstream_get("context").cstate.get_set(key, claim=["nonce"]).get("nonce")
+            except KeyError:
+                _nonce = None
+            if _nonce and _idt["nonce"] != _nonce:
+                raise ValueError("Invalid nonce")
+
+        refresh_access_token.RefreshAccessToken.update_service_context(self, resp, key=key, **kwargs)
 
     def get_authn_method(self):
         _work_environment = self.upstream_get("context").claims
